@@ -36,7 +36,7 @@ inductive Val where
   | pair (a d : Val)
   | clo (params : List String) (rest : Option String) (body : Expr) (env : Env)
   | prim (name : String)
-  | cont (k : List Frame) (w : List Wind)   -- call/cc: the frames and the winders of the capture
+  | cont (k : List Frame) (w : List Wind) (id : Nat)  -- call/cc: the frames and the winders of the capture
   | dcont (k : List Frame)                  -- shift: the frames up to the nearest delimiter
   | vec (loc : Nat)
   | vecData (items : List Val)
@@ -50,7 +50,9 @@ inductive Frame where
   | def (name : String)
   | init (loc : Nat) (rest : List (Nat × Expr)) (body : Expr) (env : Env)
   | handlerEval (body : Expr) (env : Env)   -- the handler expression of `with-handler` is being evaluated
-  | handler (h : Val)                       -- body running under handler `h`
+  | handler (h : Val) (wh : Option Nat)     -- body running under handler `h` (`some id`: installed by with-handler)
+  | whDone (id : Nat)                       -- the handler of with-handler `id` is running (bookkeeping only)
+  | ccMark (id : Nat)                       -- the receiver of call/cc capture `id` is running (bookkeeping only)
   | applyK (f : Val)
   | windIn (body out : Val) (inn : Val)     -- the `before` thunk of a fresh extent is running
   | windBody (id : Nat) (out : Val)         -- the body of extent `id` is running
@@ -58,7 +60,7 @@ inductive Frame where
   | reraise (p : Val)                       -- `after` thunk running on the error path; then raise `p` again
   | jump (target v : Val)                   -- an `after` thunk running during a transfer to `target`
   | jumpIn (target v : Val) (w : List Wind) -- a `before` thunk running during a transfer; then winders := w
-  | reset                                   -- delimiter
+  | reset (id : Nat)                        -- delimiter
 inductive Wind where
   | mk (id : Nat) (before after : Val)
 end
@@ -75,6 +77,9 @@ structure St where
   globals : Env := []
   winders : List Wind := []        -- entered extents, innermost first
   nextWind : Nat := 0
+  eqMode : Bool := false           -- see `sameExtents`
+  nextId : Nat := 0                -- identities of captures and delimiters (bookkeeping for the class predicates)
+  exited : List Nat := []          -- captures whose receiver was left by an error or by invoking the capture itself
   events : List String := []       -- control events (for the coverage report), reversed
 deriving Inhabited
 
@@ -305,19 +310,32 @@ def applyPrim (name : String) (args : List Val) (st : St) : Option (Except Val (
   | "raise-error", [v] => some (.error v)
   | _, _ => if primNames.contains name then (if args.length ≤ 3 then bad else arity) else none
 
-/-! ## Winders: the standard algorithm, extents compared by identity -/
+/-! ## Winders: the standard algorithm, extents compared by identity
 
-def sameExtents (x y : List Wind) : Bool := x.map Wind.id == y.map Wind.id
+`eqMode = true` is NOT the specification: it is the comparison the unfixed `parameters.scm` performs
+(`equal?` on the `(in . out)` entries; `equal?` on closures is "same lambda expression", captured values are
+ignored).  It exists so that a disagreement real ≠ S can be attributed to finding K08a exactly when the real
+engine agrees with this variant. -/
+
+def codeKey : Val → String
+  | .clo ps r body _ => "clo:" ++ toString ps ++ toString r ++ reprStr body
+  | .prim n => "prim:" ++ n
+  | _ => "other"
+
+def Wind.key (w : Wind) : String := codeKey w.before ++ "|" ++ codeKey w.after
+
+def sameExtents (eqMode : Bool) (x y : List Wind) : Bool :=
+  if eqMode then x.map Wind.key == y.map Wind.key else x.map Wind.id == y.map Wind.id
 
 /-- R7RS reference `common-tail`: align the lengths, then walk both lists until they are the same. -/
-def commonTail : List Wind → List Wind → List Wind
+def commonTail (eqMode : Bool) : List Wind → List Wind → List Wind
   | x, y =>
-    let x := x.drop (x.length - y.length)
-    let y := y.drop (y.length - x.length)
-    go x y
+    let x' := x.drop (x.length - y.length)
+    let y' := y.drop (y.length - x.length)
+    go x' y'
 where
   go : List Wind → List Wind → List Wind
-    | x :: xs, y :: ys => if sameExtents (x :: xs) (y :: ys) then x :: xs else go xs ys
+    | x :: xs, y :: ys => if sameExtents eqMode (x :: xs) (y :: ys) then x :: xs else go xs ys
     | _, _ => []
 
 /-! ## The machine -/
@@ -344,22 +362,37 @@ def ev (st : St) (e : String) : St := { st with events := e :: st.events }
 /-- Split the frames at the nearest delimiter. -/
 def splitReset : List Frame → List Frame → Option (List Frame × List Frame)
   | [], _ => none
-  | .reset :: k, acc => some (acc.reverse, k)
+  | .reset _ :: k, acc => some (acc.reverse, k)
   | f :: k, acc => splitReset k (f :: acc)
+
+/-- Identities of the delimiters (`reset`, `with-handler`) among the frames. -/
+def delimIds : List Frame → List Nat
+  | [] => []
+  | .reset i :: k => i :: delimIds k
+  | .handler _ (some i) :: k => i :: delimIds k
+  | .whDone i :: k => i :: delimIds k
+  | _ :: k => delimIds k
+
+def hasMark (id : Nat) : List Frame → Bool
+  | [] => false
+  | .ccMark i :: k => i == id || hasMark id k
+  | _ :: k => hasMark id k
 
 /-- One step of a transfer of control to the continuation `(kt, wt)` with value `v`, from the frames `k`:
 leave the innermost extent that is not common, or enter the outermost one that is not entered yet, or — when
 the winders are those of the target — install the target frames. -/
 def transfer (kt : List Frame) (wt : List Wind) (v : Val) (k : List Frame) (st : St) : Ctl × List Frame × St :=
   let cur := st.winders
-  let common := commonTail cur wt
+  let common := commonTail st.eqMode cur wt
+  -- coverage / classification: the two comparisons disagree on this transfer (class of finding K08a)
+  let st := if (commonTail true cur wt).length != (commonTail false cur wt).length then ev st "d12" else st
   if cur.length > common.length then
     match cur with
-    | e :: rest => (.call e.after [], .jump (.cont kt wt) v :: k, ev { st with winders := rest } "leave")
+    | e :: rest => (.call e.after [], .jump (.cont kt wt 0) v :: k, ev { st with winders := rest } "leave")
     | [] => (.rt v, kt, st)
   else if wt.length > common.length then
     match wt.drop (wt.length - common.length - 1) with
-    | e :: rest => (.call e.before [], .jumpIn (.cont kt wt) v (e :: rest) :: k, ev st "reenter")
+    | e :: rest => (.call e.before [], .jumpIn (.cont kt wt 0) v (e :: rest) :: k, ev st "reenter")
     | [] => (.rt v, kt, st)
   else (.rt v, kt, st)
 
@@ -420,8 +453,10 @@ def step (c : Ctl) (k : List Frame) (st : St) : Ctl × List Frame × St :=
         (match rest with
          | [] => (.ev body env, k, st)
          | (l, e) :: rest => (.ev e env, .init l rest body env :: k, st))
-    | .handlerEval body env :: k => (.ev body env, .handler v :: k, st)
-    | .handler _ :: k => (.rt v, k, st)
+    | .handlerEval body env :: k => (.ev body env, .handler v (some st.nextId) :: k, { st with nextId := st.nextId + 1 })
+    | .handler _ _ :: k => (.rt v, k, st)
+    | .whDone _ :: k => (.rt v, k, st)
+    | .ccMark _ :: k => (.rt v, k, st)
     | .app done todo env f :: k =>
         (match todo with
          | a :: rest => (.ev a env, .app (done ++ [v]) rest env f :: k, st)
@@ -443,20 +478,28 @@ def step (c : Ctl) (k : List Frame) (st : St) : Ctl × List Frame × St :=
     | .reraise p :: k => (.raise p, k, st)
     | .jump target v' :: k => (.call target [v'], k, st)
     | .jumpIn target v' w :: k => (.call target [v'], k, { st with winders := w })
-    | .reset :: k => (.rt v, k, st)
+    | .reset _ :: k => (.rt v, k, st)
   | .call f args =>
     match f with
     | .clo ps r body env =>
         (match bindParams ps r args env st with
          | some (env', st') => (.ev body env', k, st')
          | none => (.raise (mkErr "arity mismatch"), k, st))
-    | .cont kt wt =>
+    | .cont kt wt id =>
         (match args with
-         | [v] => transfer kt wt v k (ev st "invoke")
+         | [v] =>
+            if id == 0 then transfer kt wt v k st     -- continuation of a transfer in progress
+            else
+              let st := ev st "invoke"
+              -- class predicates (bookkeeping): K08c "capture left abnormally, invoked again", K08b "crosses a delimiter"
+              let st := if st.exited.contains id then ev st "orphan-invoke" else st
+              let st := if hasMark id k then { st with exited := id :: st.exited } else st
+              let st := if delimIds k != delimIds kt then ev st "mc-cross" else st
+              transfer kt wt v k st
          | _ => (.raise (mkErr "arity mismatch (continuation)"), k, st))
     | .dcont k1 =>
         (match args with
-         | [v] => (.rt v, k1 ++ .reset :: k, ev st "dinvoke")
+         | [v] => (.rt v, k1 ++ .reset st.nextId :: k, ev { st with nextId := st.nextId + 1 } "dinvoke")
          | _ => (.raise (mkErr "arity mismatch (continuation)"), k, st))
     | .prim name =>
         (match name, args with
@@ -468,13 +511,14 @@ def step (c : Ctl) (k : List Frame) (st : St) : Ctl × List Frame × St :=
                 | none => (.raise (mkErr "apply: not a list"), k, st))
              | none => (.raise (mkErr "arity mismatch in apply"), k, st))
          | "call/cc", [g] | "call-with-current-continuation", [g] =>
-            (.call g [.cont k st.winders], k, ev st "capture")
+            let id := st.nextId + 1
+            (.call g [.cont k st.winders id], .ccMark id :: k, ev { st with nextId := id } "capture")
          | "dynamic-wind", [inn, body, out] => (.call inn [], .windIn body out inn :: k, st)
-         | "call-with-exception-handler", [h, thunk] => (.call thunk [], .handler h :: k, st)
-         | "*reset", [thunk] => (.call thunk [], .reset :: k, ev st "reset")
+         | "call-with-exception-handler", [h, thunk] => (.call thunk [], .handler h none :: k, st)
+         | "*reset", [thunk] => (.call thunk [], .reset st.nextId :: k, ev { st with nextId := st.nextId + 1 } "reset")
          | "*shift", [g] =>
             (match splitReset k [] with
-             | some (k1, k2) => (.call g [.dcont k1], .reset :: k2, ev st "shift")
+             | some (k1, k2) => (.call g [.dcont k1], .reset st.nextId :: k2, ev { st with nextId := st.nextId + 1 } "shift")
              | none => (.raise (mkErr "shift without reset"), k, st))
          | _, _ =>
            match applyPrim name args st with
@@ -485,7 +529,11 @@ def step (c : Ctl) (k : List Frame) (st : St) : Ctl × List Frame × St :=
   | .raise p =>
     match k with
     | [] => (.raise p, [], st)
-    | .handler h :: k => (.call h [p], k, ev st "handled")
+    | .handler h none :: k => (.call h [p], k, ev st "handled")
+    | .handler h (some i) :: k => (.call h [p], .whDone i :: k, ev st "handled")
+    | .whDone _ :: k => (.raise p, k, ev st "mc-cross")     -- an error leaves the handler of a with-handler
+    | .reset _ :: k => (.raise p, k, ev st "mc-cross")      -- an error leaves the body of a reset
+    | .ccMark i :: k => (.raise p, k, { st with exited := i :: st.exited })
     | .windBody _ out :: k =>
         -- error path of dynamic-wind: leave the extent, run `after`, raise again
         (.call out [], .reraise p :: k, ev { st with winders := st.winders.tail } "exit-error")
@@ -501,22 +549,57 @@ def run : Nat → Ctl → List Frame → St → Outcome × St
       let (c', k', st') := step c k st
       run fuel c' k' st'
 
-/-- `(reset e)` / `(shift k e)` as stdlib.scm expands them. -/
-partial def expandControl : Sexp → Sexp
+/-- `(reset e)` / `(shift k e)` as stdlib.scm expands them.  With `impl` (NOT the specification, see
+`implPreludeSrc`) also `with-handler` as stdlib.scm expands it. -/
+partial def expandControl (impl : Bool) : Sexp → Sexp
   | .list (.sym "quote" :: rest) => .list (.sym "quote" :: rest)
-  | .list [.sym "reset", e] => .list [.sym "*reset", .list [.sym "lambda", .list [], expandControl e]]
-  | .list [.sym "shift", .sym k, e] => .list [.sym "*shift", .list [.sym "lambda", .list [.sym k], expandControl e]]
-  | .list xs => .list (xs.map expandControl)
+  | .list [.sym "reset", e] => .list [.sym "*reset", .list [.sym "lambda", .list [], expandControl impl e]]
+  | .list [.sym "shift", .sym k, e] =>
+      .list [.sym "*shift", .list [.sym "lambda", .list [.sym k], expandControl impl e]]
+  | .list [.sym "with-handler", h, body] =>
+      if impl then
+        -- (reset (call-with-exception-handler
+        --           (lambda (err) (define res (handler err)) (shift mk (mk res)))
+        --           (lambda () expr)))
+        let handler := Sexp.list [.sym "lambda", .list [.sym "%err"],
+          .list [.list [.sym "lambda", .list [.sym "%res"],
+                   .list [.sym "*shift", .list [.sym "lambda", .list [.sym "%mk"], .list [.sym "%mk", .sym "%res"]]]],
+                 .list [expandControl impl h, .sym "%err"]]]
+        .list [.sym "*reset", .list [.sym "lambda", .list [],
+          .list [.sym "call-with-exception-handler", handler,
+                 .list [.sym "lambda", .list [], expandControl impl body]]]]
+      else .list [.sym "with-handler", expandControl impl h, expandControl impl body]
+  | .list xs => .list (xs.map (expandControl impl))
   | s => s
 
-def preludeSrc : String := SteelVerif.Base.preludeSrc
+/-- Base's library procedures in the object language, plus the one shape of `transduce` the generator emits
+(`(transduce l (mapping f) (into-list))` = `(map f l)`, elements processed left to right). -/
+def preludeSrc : String := SteelVerif.Base.preludeSrc ++ "
+(define (mapping f) f)
+(define (into-list) 'into-list)
+(define (transduce l f r) (map f l))"
 
-def evalProgram (fuel : Nat) (forms : List Sexp) (st : St) : List String × Option String × St :=
+/-- NOT the specification: `reset` / `shift` as stdlib.scm implements them (Filinski's encoding on top of
+call/cc with ONE mutable meta-continuation cell).  Used only to attribute a disagreement real ≠ S to finding
+K08b: the cell is neither restored when an error leaves a `reset` nor saved/restored by call/cc
+continuations that cross a `reset`. -/
+def implPreludeSrc : String := preludeSrc ++ "
+(define *mc* (lambda (v) (error \"You forgot the top-level reset...\")))
+(define (*abort thunk) (let ((v (thunk))) (*mc* v)))
+(define (*reset thunk)
+  (let ((mc *mc*))
+    (call/cc (lambda (k)
+      (begin (set! *mc* (lambda (v) (set! *mc* mc) (k v)))
+             (*abort thunk))))))
+(define (*shift f)
+  (call/cc (lambda (k) (*abort (lambda () (f (lambda (v) (*reset (lambda () (k v))))))))))"
+
+def evalProgram (impl : Bool) (fuel : Nat) (forms : List Sexp) (st : St) : List String × Option String × St :=
   let rec go (fs : List Sexp) (st : St) (vals : List String) : List String × Option String × St :=
     match fs with
     | [] => (vals, none, st)
     | f :: rest =>
-      match desugar (expandControl f) with
+      match desugar (expandControl impl f) with
       | none => (vals, some "err:syntax", st)
       | some e =>
         match run fuel (.ev e []) [] st with
@@ -525,9 +608,12 @@ def evalProgram (fuel : Nat) (forms : List Sexp) (st : St) : List String × Opti
         | (.timeout, st') => (vals, some "timeout", st')
   go forms st []
 
-def initState : St :=
-  match SteelVerif.Base.Reader.read preludeSrc with
-  | some forms => (evalProgram 100000 forms {}).2.2
+def initStateOf (src : String) : St :=
+  match SteelVerif.Base.Reader.read src with
+  | some forms => (evalProgram false 100000 forms {}).2.2
   | none => {}
+
+def initState : St := initStateOf preludeSrc
+def implInitState : St := { initStateOf implPreludeSrc with eqMode := true }
 
 end SteelVerif.C08
